@@ -18,7 +18,9 @@ for id in $ids; do
     nviol=$(echo "$out" | grep -c '^VIOLATION')
     first=$(echo "$out" | grep -m1 '^VIOLATION' | sed 's/.*replay=[^ ]* //' | cut -c1-150)
     und=$(echo "$out" | grep -c '^UNDECIDED\|^OUT-OF-REACH\|^CHECKER')
-    echo "$id check=$p exit=$rc violations=$nviol undecided/other=$und secs=$((t1-t0)) :: $first"
+    nd=$(echo "$out" | grep '^VIOLATION' | grep -c 'obligation=')
+    nb=$(echo "$out" | grep '^VIOLATION' | grep -c 'bounded-contract=')
+    echo "$id check=$p exit=$rc violations=$nviol undecided/other=$und secs=$((t1-t0)) D=$nd B=$nb :: $first"
   done
   rm -rf $W
 done
